@@ -47,12 +47,15 @@ TARGETS = [
 ]
 BOUNDS = {
     "rules": "two detections d0, d1 from a pool of 14 shapes x 6 condition forms",
-    "transformations": "34 instances (field mapping 1:1 / 1:n / keyword->field / prefix mapping / prefix / suffix / scoped, drop item, add_condition plain / negated / template, replace_string (incl. identity), map_string 1:1 / 1:n, case, set_value, convert_type, regex plain, nest, chains, 'matches nothing' instances)",
-    "thorough": "pool of 24 shapes (adds endswith, contains with wildcard, lt, exists, cased, re|i, list of maps with two fields, mixed number/string list, bool, contains|all next to a second field) x 12 condition forms (adds all of, 1 of them, negated quantifier, nested)",
+    "transformations": "35 instances (incl. hashes_fields) (field mapping 1:1 / 1:n / keyword->field / prefix mapping / prefix / suffix / scoped, drop item, add_condition plain / negated / template, replace_string (incl. identity), map_string 1:1 / 1:n, case, set_value, convert_type, regex plain, nest, chains, 'matches nothing' instances)",
+    "thorough": "pool of 28 shapes (adds Hashes single / under all / by length / repeated algorithm, endswith, contains with wildcard, lt, exists, cased, re|i, list of maps with two fields, mixed number/string list, bool, contains|all next to a second field) x 12 condition forms (adds all of, 1 of them, negated quantifier, nested)",
     "placeholders": "4 placeholder pipelines (value list, include/exclude splits in both orders, wildcard then value list) x two detections from an 11-shape pool with `expand` (plain, contains, startswith, cased, regular expressions with flags, lists, two placeholders in one value) x 6 conditions, compared with the conversion of the hand-expanded document",
-    "outside": "external-source and Jinja-template transformations (C16 covers their gating); values with backslashes before wildcards (open known finding of C05); hashes_fields / extract_fields",
+    "outside": "external-source and Jinja-template transformations (C16 covers their gating); values with backslashes before wildcards (open known finding of C05); extract_fields",
 }
 ASSUMPTIONS = ["dropping the ONLY value of an item (the library then renders the item as a null check) is left unspecified: the drop instance only removes one of several values", "reference rewrites are written from the transformation documentation; the C01 reference semantics evaluates the rewritten source"]
+
+H32A, H32B, H40, H64 = "4fae81eb7018069e75a087c38af783df", "0123456789abcdef0123456789abcdef", "6a4b7de61d9c29d5b2e0ca8a4a2e5a4f8a9b0c1d", "aa" * 32
+HASH_ALGOS = ["MD5", "SHA1", "SHA256", "IMPHASH"]
 
 POOL = [
     {"fA": "v0"},
@@ -69,6 +72,7 @@ POOL = [
     {"fB": "V9x", "win.x": "v0"},
     {"win.darwin.y": "", "f.f": ["", "v0"]},
     ["100%\\*", "\\*x\\?", "*k*"],
+    {"Hashes|contains": ["MD5=" + H32A, "SHA1=" + H40], "fB": "v2"},
 ]
 CONDS = ["d0", "not d0", "d0 and d1", "d0 or not d1", "not (d0 or d1)", "1 of d*"]
 
@@ -85,6 +89,10 @@ POOLX = [
     {"fB": [5, "v5"]},
     {"fA": True},
     {"fA|contains|all": ["v0", "V9"], "fB": "v0"},
+    {"Hashes": "MD5=" + H32A},
+    {"Hashes|contains|all": ["MD5=" + H32A, "SHA256=" + H64]},
+    {"Hash": H64},
+    {"Hashes": ["MD5=" + H32A, "MD5=" + H32B, "IMPHASH=" + H32B]},
 ]
 CONDSX = ["all of d*", "d0 and not d1", "1 of them", "not 1 of d*", "(d0 and d1) or not d0", "all of them"]
 
@@ -258,6 +266,31 @@ def add_cond(doc, field, value, negated=False):
     return [("and", [a, f]) for f in ref(doc, None)]
 
 
+
+
+def hashes_fn(key, value, nc):
+    """hashes_fields as documented: every 'ALGO=hash' (or bare hash, algorithm by length) value of a Hashes/Hash item
+    becomes '<prefix><ALGO>: hash'; the values stay alternatives - or all required under `all`."""
+    field, mods = split(key)
+    vals = value if isinstance(value, list) else [value]
+    if field not in ("Hashes", "Hash") or not all(isinstance(v, str) for v in vals):
+        return S.item_formula(key, value, nc)
+    atoms = []
+    for v in vals:
+        parts = v.split("|") if "|" in v else v.split("=")
+        if len(parts) == 2:
+            algo, h = parts[0].lstrip("*").upper(), parts[1].strip("*?")
+        else:
+            h = parts[0].strip("*?")
+            algo = {32: "MD5", 40: "SHA1", 64: "SHA256", 128: "SHA512"}.get(len(h), "")
+        if algo not in HASH_ALGOS:
+            raise Skip()  # values without a recognised algorithm: left unspecified here
+        atoms.append(("atom", ("glob", False, "File" + algo, tuple(ref_parse(h)))))
+    if len(atoms) == 1:
+        return atoms[0]
+    return ("and" if "all" in mods else "or", atoms)
+
+
 FA = lambda m: (lambda f: m if f == "fA" else None)
 SUB = lambda pat, rep: (lambda t: (re.sub(pat, rep, t) if re.search(pat, t) else None))
 TRANS = [
@@ -294,6 +327,7 @@ TRANS = [
     ("set-state-only", [{"type": "set_state", "key": "k", "val": "v"}], None),
     ("map-string-drop", [{"type": "map_string", "mapping": {"v5": []}}], lambda d: ref(d, values(on_strings(lambda t: [] if t == "v5" else None)))),
     ("replace-string-empty", [{"type": "replace_string", "regex": "^v0$", "replacement": ""}], lambda d: ref(d, values(on_strings(lambda t: "" if t == "v0" else None, numbers=True)))),
+    ("hashes-fields", [{"type": "hashes_fields", "valid_hash_algos": list(HASH_ALGOS), "field_prefix": "File"}], lambda d: ref(d, hashes_fn)),
     ("set-value-false", [{"type": "set_value", "value": False, "field_name_conditions": [{"type": "include_fields", "fields": ["fB"]}]}], lambda d: ref(d, values(lambda k: ("atom", ("num", k[2] if k[0] in ("glob", "fieldref") else k[1], "false")), ["fB"]))),
 ]
 
